@@ -221,6 +221,20 @@ def random_network(rng, quick=True, force=None):
             else:
                 links.append(pipe(a, b))
             feat["loop"] = True
+    # a link whose TWO ends are sources (tank-tank, reservoir-reservoir, reservoir-tank): pipe, TCV or pump
+    if len(srcs) >= 2 and rng.random() < 0.45:
+        a, b = rng.sample(srcs, 2)
+        same = [(x, y) for x in srcs for y in srcs if x != y and kind[x] == kind[y]]
+        if same and rng.random() < 0.7:
+            a, b = rng.choice(same)
+        r = rng.random()
+        if r < 0.6:
+            links.append(pipe(a, b, cv=rng.random() < 0.15))
+        elif r < 0.8:
+            links.append(valve(a, b, vt="TCV"))
+        else:
+            links.append(pump(a, b))
+        feat["source_source"] = True
     # a valve / pump next to a tank now and then (valves only on junction-junction links inside WNTR's supported set;
     # next to a tank = sharing a junction with a tank pipe, or directly out of the tank for pumps)
     tanks = [nd["name"] for nd in nodes if nd["type"] == "tank"]
@@ -393,7 +407,7 @@ def spec_signature(spec):
 
 # ----------------------------------------------------------------------------- directed scenarios
 
-SCENARIOS = ["psv", "prv", "fcv", "tcv", "pump_shutoff", "cv_reverse", "power_pump", "pump_curves", "cv_htol", "pump_points"]
+SCENARIOS = ["psv", "prv", "fcv", "tcv", "pump_shutoff", "cv_reverse", "power_pump", "pump_curves", "cv_htol", "pump_points", "tank_tank"]
 
 
 def _opts(rng, **kw):
@@ -473,6 +487,28 @@ def scenario_network(rng, name, variant=0):
                  _junc("J0", 0.0, base, "dq"), _junc("J1", 0.0)]
         links = [{"name": "PU1", "type": "pump", "start": "R0", "end": "J0", "pump_type": "HEAD", "curve": "c1", "initial_status": "OPEN"},
                  _pipe("P1", "J0", "J1", L=10.0, d=0.3)]
+    elif name == "tank_tank":
+        # links whose two ends are both tanks / both reservoirs (pipe, TCV, pump), carrying flow; leak on the END tank or not
+        lk = [None, {"area": _r(rng, 5e-5, 4e-4, 6), "cd": 0.75, "start": 0, "end": None}][variant % 2 if variant else rng.randrange(2)]
+        t1 = {"name": "T1", "type": "tank", "elevation": _r(rng, 30, 40, 1), "init_level": _r(rng, 2, 5, 1), "min_level": 0.0, "max_level": 15.0, "diameter": _r(rng, 6, 12, 1)}
+        if lk:
+            t1["leak"] = lk
+        nodes = [{"name": "R0", "type": "reservoir", "head": _r(rng, 70, 80, 1), "head_pattern": None},
+                 {"name": "R1", "type": "reservoir", "head": _r(rng, 55, 65, 1), "head_pattern": None},
+                 {"name": "T0", "type": "tank", "elevation": _r(rng, 45, 55, 1), "init_level": _r(rng, 4, 8, 1), "min_level": 0.0, "max_level": 15.0, "diameter": _r(rng, 6, 12, 1)},
+                 t1, _junc("J0", 5.0, _r(rng, 0.002, 0.01, 4), "pat0"), _junc("J1", 8.0, _r(rng, 0.002, 0.01, 4))]
+        links = [_pipe("P1", "R0", "J0", L=300.0, d=0.3), _pipe("P2", "J0", "T0", L=200.0, d=0.25), _pipe("P3", "T1", "J1", L=150.0, d=0.2),
+                 _pipe("P4", "J1", "R1", L=400.0, d=0.2),
+                 _pipe("PTT", "T0", "T1", L=_r(rng, 100, 400, 0), d=rng.choice([0.1, 0.15, 0.2])),
+                 _pipe("PTTr", "T1", "T0", L=_r(rng, 100, 400, 0), d=0.1),
+                 {"name": "VTT", "type": "valve", "start": "T0", "end": "T1", "valve_type": "TCV", "diameter": 0.1, "minor_loss": 1.0,
+                  "setting": _r(rng, 5, 60, 1), "initial_status": "ACTIVE"},
+                 _pipe("PRR", "R0", "R1", L=_r(rng, 500, 1500, 0), d=rng.choice([0.1, 0.15]), K=2.0),
+                 _pipe("PRRr", "R1", "R0", L=800.0, d=0.1)]
+        if rng.random() < 0.6:
+            curves["c1"] = [(0.02, _r(rng, 8, 20, 1))]
+            links.append({"name": "PUTT", "type": "pump", "start": "T1", "end": "T0", "pump_type": "HEAD", "curve": "c1", "initial_status": "OPEN"})
+        opts = _opts(rng, demand_model=["DD", "PDD"][(variant // 2) % 2 if variant else rng.randrange(2)])
     elif name == "cv_htol":
         # R0 -CV pipe-> J0 -pipe-> R1 with R1 within / just outside the head tolerance above R0: only the FLOW test can close the CV
         off = rng.choice([0.0001, 0.00005, 0.00014, 0.00016, 0.001, -0.0001, 0.00012])
